@@ -425,13 +425,31 @@ func runC20(c *Ctx) {
 		bad := ""
 		dv := fieldVal(dstSym)
 		call, _ := dv.(*ssa.Call)
-		if call == nil || !extFn(call.Common(), "fmt", "Sprintf") {
-			bad = "DstSymbol is not built with fmt.Sprintf"
-		} else {
+		// the two parts of "<package path>.<function name>": from Sprintf("%s.%s", a, b) or from a + "." + b
+		var va []ssa.Value
+		haveParts := false
+		if call != nil && extFn(call.Common(), "fmt", "Sprintf") {
 			if cs, ok := call.Common().Args[0].(*ssa.Const); !ok || cs.Value.ExactString() != `"%s.%s"` {
 				bad = "DstSymbol format is not \"%s.%s\""
 			}
-			va := varargValues(call.Common().Args[1])
+			va = varargValues(call.Common().Args[1])
+			haveParts = true
+		} else if outer, ok := dv.(*ssa.BinOp); ok && outer.Op == token.ADD {
+			if inner, ok := outer.X.(*ssa.BinOp); ok && inner.Op == token.ADD {
+				if dot, ok := inner.Y.(*ssa.Const); ok && dot.Value != nil && dot.Value.ExactString() == `"."` {
+					name := outer.Y
+					// decl.Name.Name: the identifier's string is the identifier
+					if b, fl, ok := loadedField(name); ok && fl.Name() == "Name" {
+						name = b
+					}
+					va = []ssa.Value{inner.X, name}
+					haveParts = true
+				}
+			}
+		}
+		if !haveParts {
+			bad = "DstSymbol is not built with fmt.Sprintf"
+		} else {
 			if len(va) != 2 {
 				bad = "DstSymbol is not formatted from (package path, function name)"
 			} else {
@@ -543,14 +561,37 @@ func runC20(c *Ctx) {
 		if h == nil || h != h2 {
 			bad = "source and destination are not written by the same loop over the entries"
 		} else {
+			// the element written in iteration T is Redirects[T] (induction form)
 			asc := false
-			for _, in := range h.Instrs {
-				if phi, ok := in.(*ssa.Phi); ok {
-					for _, e := range phi.Edges {
-						if k, ok := constInt64(e); ok && k == -1 {
-							asc = true
+			var elemIdx ssa.Value
+			if cc := callCommon(gc.Ins[sn]); cc != nil {
+				v := cc.Args[2]
+				if mi, ok := v.(*ssa.MakeInterface); ok {
+					v = mi.X
+				}
+				if bv, _, ok := loadedField(v); ok {
+					for i := 0; i < 3 && bv != nil; i++ {
+						switch t := bv.(type) {
+						case *ssa.IndexAddr:
+							elemIdx, bv = t.Index, nil
+						case *ssa.UnOp:
+							bv = t.X
+						case *ssa.FieldAddr:
+							bv = t.X
+						default:
+							bv = nil
 						}
 					}
+				}
+			}
+			if elemIdx != nil {
+				zo := &Polyizer{}
+				if lf, ok := gc.loopFormAt(zo, gc.Ins[sn].Block()); ok {
+					first, step, okA := lf.affineInT(elemIdx)
+					lf.Done()
+					f0, c0 := first.isConst()
+					s1, c1 := step.isConst()
+					asc = okA && c0 && f0 == 0 && c1 && s1 == 1
 				}
 			}
 			if !asc {
